@@ -432,6 +432,7 @@ impl World {
     pub fn exec(&mut self, op: &Op) -> R {
         let r = match op {
             Op::Push(ml) => self.op_push(ml),
+            Op::PushUnchecked(m) => self.op_push_unchecked(m),
             Op::PushUciList(s) => self.op_push_list(s),
             Op::Pop => self.op_pop(),
             Op::SetOutcome(o) => {
@@ -485,6 +486,7 @@ impl World {
         let in_primitives = loc.contains("moves/base.rs");
         match op {
             Op::Push(_) | Op::PushUciList(_) => &[C02, C13],
+            Op::PushUnchecked(_) => &[C13],
             Op::BoardMake(_) => &[C02],
             Op::Pop => {
                 if in_primitives {
@@ -957,6 +959,42 @@ impl World {
                 self.expect_spy(&[SpyEv::Push(k)])?;
             }
         }
+        Ok(Exec::Done)
+    }
+
+    /// The unsafe fast path of the chain, used within its contract: the move is legal.
+    fn op_push_unchecked(&mut self, m: &RMove) -> R {
+        if self.rc.outcome.is_some() || self.rc.len() >= MAX_CHAIN_LEN || m.kind == rm::K_NULL {
+            return Ok(Exec::Skipped);
+        }
+        let info = self.info().clone();
+        if !info.legal.contains(m) {
+            return Ok(Exec::Skipped);
+        }
+        let mv = match crate::full::move_of(m) {
+            Some(mv) => mv,
+            None => return Ok(Exec::Skipped),
+        };
+        if mv.validate(self.chain.last()).is_err() {
+            return Ok(Exec::Skipped);
+        }
+        let len0 = self.rc.len();
+        unsafe {
+            self.chain.push_unchecked(mv);
+            self.spy.push_unchecked(mv);
+        }
+        self.stats.hit("op.push-unchecked");
+        self.invalidate();
+        if self.chain.len() != len0 + 1 || self.chain.get(len0) != mv {
+            if self.on(C13) {
+                return Err(self.fail(C13, "refinement", format!("push_unchecked({}) did not record exactly that move", mv)));
+            }
+            return Ok(Exec::Done);
+        }
+        self.note_move_kind(&mv, true);
+        self.ref_accept(mv, true)?;
+        let k = self.rc.keys.last().unwrap().clone();
+        self.expect_spy(&[SpyEv::Push(k)])?;
         Ok(Exec::Done)
     }
 
